@@ -118,6 +118,10 @@ func (g *Generator) Execute(outputDirPath string) (err error) {
 	}
 
 	pathFormat := filepath.Join(outputDirPath, "%s.go")
+	if strings.Contains(outputDirPath, "%") {
+		// the directory is part of the path, not of the format: a '%' in its name stays a '%'
+		pathFormat = filepath.Join(strings.ReplaceAll(outputDirPath, "%", "%%"), "%s.go")
+	}
 	err = g.write(fmt.Sprintf(pathFormat, "header"), g.makeFile(g.makeHeader(), pkg))
 	if err != nil {
 		return err
